@@ -38,6 +38,9 @@ func translationsDet(reg *template.Registry, kind int) *jsMemBundle {
 		if kind == 1 {
 			parts = reverseParts(parts)
 		}
+		if kind == 2 && m.ID%3 != 0 {
+			parts = nil // translated to the EMPTY text (an entry without parts is still a translation)
+		}
 		b.msgs[m.ID] = &soymsg.Message{ID: m.ID, Parts: parts}
 	}
 	return b
